@@ -43,7 +43,7 @@ New ==
 ImportName ==
   /\ IsEv("ImportName")
   /\ hints' = Put(hints, E.p, Def(E.n, FALSE))
-  /\ claims' = IF E.p = "C" THEN claims ELSE Put(claims, E.p, Find2(claims, E.p) \cup {E.n})
+  /\ claims' = IF E.p = "C" \/ E.n = "" THEN claims ELSE Put(claims, E.p, Find2(claims, E.p) \cup {E.n})
   /\ dirty' = TRUE
   /\ UNCHANGED <<tid, cf, imps, body, bound, anons, last>>
 ImportAlias ==
@@ -134,6 +134,9 @@ MonFile(specsq, refs, bare, parses) ==
   \* C19
   /\ \A s \in specs : (s.path = "C" /\ s.name # "") => Report("C19", s.name)
   /\ (Len(cf.preamble) > 0 /\ ~ \E s \in specs : s.path = "C") => Report("C19", "no import C")
+  \* ... and C.x denotes the pseudo-package: no other import of the file is called C
+  /\ \A s, o \in specs : (s.path = "C" /\ o.path # "C" /\ (o.name = "C" \/ (o.name = "" /\ "C" \in EffNames(o))))
+                            => Report("C19", "the name C also denotes " \o o.path)
   /\ \A s, o \in specs : (s.path = "C" /\ Len(cf.preamble) > 0 /\ o.path # "C" /\ o.decl = s.decl) => Report("C19", "not separate")
   /\ \A s, o \in specs : (s.path = "C" /\ Len(cf.preamble) = 0 /\ o.decl # s.decl) => Report("C19", "separate without preamble")
   /\ \A s \in specs : (parses /\ s.path = "C" /\ Len(cf.preamble) > 0 /\ s.doc # cf.predoc)
